@@ -15,6 +15,7 @@
 //!                   partial-exit (write half the reply, then exit without reading) | exit-at-once |
 //!                   noread (write the reply, never read stdin)
 //!   mark=<path>     created when the failure requested by fail= was actually emitted
+//!   errpad=<N>      write N bytes to stderr first
 //!   capout=<path>   write the stdout pipe capacity (F_GETPIPE_SZ) to this file
 use cvx::dimacs::parse_dimacs;
 use cvx::dpll;
@@ -38,6 +39,21 @@ fn bump_counter(path: Option<&str>) -> usize {
 
 fn main() {
     let args: Vec<String> = std::env::args().skip(1).collect();
+    // errpad=<N>: N bytes of diagnostics on stderr before anything else (a third stream the caller
+    // must not let fill up)
+    if let Some(n) = opt(&args, "errpad").and_then(|x| x.parse::<usize>().ok()) {
+        let line = b"c diagnostic noise on the standard error stream ............\n";
+        let mut e = std::io::stderr();
+        let mut left = n;
+        while left > 0 {
+            let k = left.min(line.len());
+            if e.write_all(&line[..k]).is_err() {
+                break;
+            }
+            left -= k;
+        }
+        let _ = e.flush();
+    }
     let behav = opt(&args, "behav").unwrap_or("readall");
     let call = bump_counter(opt(&args, "cnt"));
     if let Some(p) = opt(&args, "capout") {
